@@ -24,6 +24,8 @@ import (
 	"sync"
 	"time"
 
+	"github.com/fxamacker/cbor/v2"
+
 	"github.com/taurusgroup/multi-party-sig/pkg/ecdsa"
 	"github.com/taurusgroup/multi-party-sig/pkg/math/curve"
 	"github.com/taurusgroup/multi-party-sig/pkg/party"
@@ -50,6 +52,9 @@ type c03Case struct {
 	Seed    int64    `json:"seed"`
 	Key     string   `json:"key"`
 	Parties []string `json:"parties,omitempty"` // participants of the session when not the default three
+	// Order "p2p-first": E's broadcast of the same round is delivered only after the altered p2p messages (the handler then
+	// verifies the stored p2p message from inside the broadcast path); "" = E's broadcast first
+	Order string `json:"order,omitempty"`
 }
 
 func (cs c03Case) kind() string {
@@ -60,7 +65,11 @@ func (cs c03Case) kind() string {
 }
 
 func (cs c03Case) key(prop string) string {
-	return fmt.Sprintf("%s/%s/round%d/%s%s/%s", prop, cs.Proto, cs.Round, cs.kind(), cs.Field, cs.Alt)
+	k := fmt.Sprintf("%s/%s/round%d/%s%s/%s", prop, cs.Proto, cs.Round, cs.kind(), cs.Field, cs.Alt)
+	if cs.Order != "" {
+		k += "/" + cs.Order
+	}
+	return k
 }
 
 type c03Party struct {
@@ -238,7 +247,84 @@ func c03Material(c *ctx, needCMP, needPre bool) *c03Mat {
 			}
 		}
 	}
+	m.freeze()
 	return m
+}
+
+// freeze: the material is shared read-only by runs on several goroutines, but the library's point type normalises itself
+// in place on first use (JacobianPoint.ToAffine inside Equal / MarshalBinary / XScalar): two runs reading a freshly computed
+// point (presignature R, RBar, S; verification shares) concurrently would race and compute garbage -- a harness artefact, not a
+// protocol failure.  Round-tripping everything once through its documented encoding leaves only affine points, which no
+// read-only operation writes to.
+func (m *c03Mat) freeze() {
+	fail := func(what string, err interface{}) { m.errs = append(m.errs, fmt.Sprintf("freeze %s: %v", what, err)) }
+	g := curve.Secp256k1{}
+	for id, cf := range m.frostCfg {
+		if cf == nil {
+			continue
+		}
+		if r, e := restoreAll([]interface{}{cf}); e == "" {
+			m.frostCfg[id] = r[0].(*frost.Config)
+		} else {
+			fail("frost config", e)
+		}
+	}
+	for id, cf := range m.tapCfg {
+		if cf == nil {
+			continue
+		}
+		if r, e := restoreAll([]interface{}{cf}); e == "" {
+			m.tapCfg[id] = r[0].(*frost.TaprootConfig)
+		} else {
+			fail("taproot config", e)
+		}
+	}
+	for id, cf := range m.cmpCfg {
+		if cf == nil {
+			continue
+		}
+		if r, e := restoreAll([]interface{}{cf}); e == "" {
+			m.cmpCfg[id] = r[0].(*cmp.Config)
+		} else {
+			fail("cmp config", e)
+		}
+	}
+	for id, pre := range m.cmpPre {
+		if pre == nil {
+			continue
+		}
+		b, err := cbor.Marshal(pre)
+		if err != nil {
+			fail("presignature", err)
+			continue
+		}
+		n := ecdsa.EmptyPreSignature(g)
+		if err := cbor.Unmarshal(b, n); err != nil {
+			fail("presignature", err)
+			continue
+		}
+		m.cmpPre[id] = n
+	}
+	if m.dR != nil {
+		if b, err := cbor.Marshal(m.dR); err == nil {
+			n := doerner.EmptyConfigReceiver(g)
+			if err := cbor.Unmarshal(b, n); err == nil {
+				m.dR = n
+			} else {
+				fail("doerner receiver", err)
+			}
+		}
+	}
+	if m.dS != nil {
+		if b, err := cbor.Marshal(m.dS); err == nil {
+			n := doerner.EmptyConfigSender(g)
+			if err := cbor.Unmarshal(b, n); err == nil {
+				m.dS = n
+			} else {
+				fail("doerner sender", err)
+			}
+		}
+	}
 }
 
 func c03HonestResults(out *c03Outcome) map[party.ID]interface{} {
@@ -914,6 +1000,8 @@ func c03Run(p *c03Proto, cs c03Case) (out *c03Outcome) {
 	s := p.build(rng, func(from party.ID, e *Env) []*Env {
 		if from == E && int(e.Msg.RoundNumber) == cs.Round && e.Msg.Broadcast == cs.Bcast && e.Tag == "" {
 			e.Tag = "/held"
+		} else if cs.Order == "p2p-first" && !cs.Bcast && from == E && int(e.Msg.RoundNumber) == cs.Round && e.Msg.Broadcast && e.Tag == "" {
+			e.Tag = "/late"
 		}
 		return []*Env{e}
 	})
@@ -943,10 +1031,14 @@ func c03Run(p *c03Proto, cs c03Case) (out *c03Outcome) {
 		}
 	}
 	for steps := 0; len(s.Flight) > 0 && steps < 20000; steps++ {
-		pick, pickE, held := -1, -1, false
+		pick, pickE, held, late := -1, -1, false, false
 		for i, e := range s.Flight {
 			if e.Tag == "/held" {
 				held = true
+				continue
+			}
+			if e.Tag == "/late" {
+				late = true
 				continue
 			}
 			if e.Msg.From != E && pick < 0 {
@@ -964,6 +1056,13 @@ func c03Run(p *c03Proto, cs c03Case) (out *c03Outcome) {
 		case held:
 			c03Mutate(s, env, cs, out)
 			mutated = true
+		case late:
+			// the altered p2p messages have been delivered (and stored): now E's broadcast of that round
+			for _, e := range s.Flight {
+				if e.Tag == "/late" {
+					e.Tag = ""
+				}
+			}
 		}
 	}
 	for _, id := range s.IDs {
@@ -1194,6 +1293,12 @@ func c03Cases(c *ctx, p *c03Proto, plan c03Plan) []c03Case {
 				chosen[groups[g][rng.Intn(len(groups[g]))]] = true
 			}
 		}
+		bcastRounds, lateDone := map[int]bool{}, map[string]int{}
+		for _, f := range fields {
+			if f.Bcast {
+				bcastRounds[f.Round] = true
+			}
+		}
 		for fi, f := range fields {
 			if plan.OnlyFields != nil && !plan.OnlyFields(f) {
 				continue
@@ -1241,6 +1346,14 @@ func c03Cases(c *ctx, p *c03Proto, plan c03Plan) []c03Case {
 				}
 				cs.Key = cs.key("C03")
 				cases = append(cases, cs)
+				if !f.Bcast && bcastRounds[f.Round] && !strings.HasPrefix(alt, "split:") && lateDone[fmt.Sprint(f.Round, f.Field)] < 2 {
+					// the same alteration with E's broadcast of that round arriving after the altered p2p message
+					lateDone[fmt.Sprint(f.Round, f.Field)]++
+					c2 := cs
+					c2.Order, c2.Seed = "p2p-first", rng.Int63()
+					c2.Key = c2.key("C03")
+					cases = append(cases, c2)
+				}
 			}
 			for _, path := range paths {
 				for _, alt := range alts {
